@@ -132,7 +132,9 @@ func lexGohtStart(l *lexer) lexFn {
 			if openParens == closeParens+1 {
 				break
 			}
-			l.next()
+			if l.next() == scanner.EOF {
+				return l.errorf("template declaration is incomplete: eof")
+			}
 		}
 	}
 	l.next()
